@@ -473,18 +473,34 @@ def check_unresolved_raises(rep, rule):
 # R02.a/b, R03.a/b, R01.f(recursion): the generated level (build_chain_str)
 # ---------------------------------------------------------------------------------------------
 
+def _implies_empty(t, pol, name):
+    """Does the path condition (t, pol) say that the sequence ``name`` is empty?"""
+    n = norm(t)
+    if n == name or n in ('len(%s)' % name, 'bool(%s)' % name):
+        return pol is False
+    if isinstance(t, ast.Compare) and len(t.ops) == 1:
+        l, r, op = norm(t.left), norm(t.comparators[0]), t.ops[0]
+        if l == 'len(%s)' % name and r == '0':
+            return (isinstance(op, ast.Eq) and pol is True) or (isinstance(op, (ast.NotEq, ast.Gt)) and pol is False)
+        if l == 'len(%s)' % name and r == '1':
+            return (isinstance(op, ast.Lt) and pol is True) or (isinstance(op, ast.GtE) and pol is False)
+        if l == name and r in ('[]', '()'):
+            return (isinstance(op, ast.Eq) and pol is True) or (isinstance(op, ast.NotEq) and pol is False)
+    return False
+
+
 def analyse_level_template(repo):
+    """Symbolic run of build_chain_str: (fi, evaluator, parts of the template return, stopping return, main return)."""
     sinter = repo.mod(SINTER)
     fi = sinter.func('build_chain_str')
-    ps = fi.params()
-    te = TemplateEval(repo, fi)
-    rets = returns_of(fi)
-    stop = [r for r in rets if isinstance(r.value, ast.Constant) and r.value.value == '']
-    main = [r for r in rets if r not in stop]
-    if len(stop) != 1 or len(main) != 1:
-        raise AnalysisError('build_chain_str: expected one stopping return and one template return')
-    parts = te.ev(main[0].value, main[0].lineno)
-    return fi, te, parts, stop[0], main[0]
+    te = TemplateEval(repo, fi).run()
+    mr = te.main_return()
+    stops = [r for st, t, rets in te.guards for r in rets]
+    empty = [r for r in stops if isinstance(r[1], codegen.Tmpl) and ''.join(p for p in r[1].parts if isinstance(p, str)) == ''
+             and all(isinstance(p, str) for p in r[1].parts)]
+    if mr is None or not isinstance(mr[1], codegen.Tmpl) or len(stops) != 1 or len(empty) != 1:
+        raise AnalysisError('build_chain_str: expected one stopping return (the empty string) and one template return')
+    return fi, te, mr[1].parts, empty[0][0], mr[0]
 
 
 def _render_level(repo, fi, parts, level):
@@ -507,7 +523,7 @@ def check_generated_level(rep, r_kw, r_decl, r_tail, r_index, r_rec):
     key = lambda w: fkey(fi, w)
     # stopping case
     cs = conds(fi, stop)
-    ok = has_cond(cs, lambda t: norm(t) == ps[0], False)
+    ok = any(_implies_empty(t, p, ps[0]) for t, p in cs)
     rep.check(r_rec, key('stopping case'), ok, "returns '' exactly when no functions are left" if ok else
               'the empty-string return is not guarded by "not %s"' % ps[0], sinter, stop)
     trees = {}
@@ -561,9 +577,11 @@ def check_generated_level(rep, r_kw, r_decl, r_tail, r_index, r_rec):
     argn = [x.arg for x in a.args]
     js = [r.holes.get(x) for x in argn]
     ok = len(argn) == 2 and not a.defaults and not a.kwonlyargs and a.vararg is None and a.kwarg is None and \
-        all(isinstance(j, Sym) and j.kind == 'join' and norm(j.iter) == '%s[0]' % ps[1] for j in js)
-    rep.check(r_rec, key('def parameters'), ok, 'level parameters are exactly %s[0]' % ps[1] if ok else
-              'generated def parameters are not the join of %s[0]' % ps[1], sinter, main)
+        all(isinstance(j, Sym) and j.kind == 'join' and norm(j.iter) == '%s[0]' % ps[1] and j.elt is None and not j.filters
+            and not getattr(j, 'order_ops', None) for j in js)
+    rep.check(r_rec, key('def parameters'), ok, 'level parameters are exactly %s[0], in that order' % ps[1] if ok else
+              'generated def parameters are not the join of %s[0] in its own order (the enclosing middleware passes them to next() '
+              'positionally)' % ps[1], sinter, main)
     # ---- keyword identity (R02.a)
     kw_ok = not call.args and all(k.arg is not None and isinstance(k.value, ast.Name) and k.arg == k.value.id for k in call.keywords) \
         and len(call.keywords) >= 1
@@ -588,18 +606,26 @@ def check_generated_level(rep, r_kw, r_decl, r_tail, r_index, r_rec):
     rep.check(r_decl, key('in-scope filter'), ok,
               'a declared name is passed only if it is in params_sofar (in scope at this level)' if ok else
               'emitted arguments are not filtered by membership in params_sofar: %r' % [f[2] for f in j.filters], sinter, main)
-    # params_sofar discipline
-    cfg = cfg_of(fi)
-    upd = [s for s in stmts_of(fi.node) if isinstance(s, ast.Expr) and isinstance(s.value, ast.Call)
-           and norm(s.value.func) == 'params_sofar.update' and norm(s.value.args[0]) == '%s[0]' % ps[1]]
-    use = [stmt_of(sinter, f[3]) for f in flt]
-    ok = bool(upd) and bool(use) and all(cfg.must_pass(cfg.nodes_of_all(upd), cfg.entry, cfg.nodes_of(u)) for u in use)
+    # params_sofar discipline: decided on the execution trace of the symbolic run (scope-set updates, evaluations of the
+    # membership filter, recursive call -- in the order in which the builder performs them)
+    evs = te.events
+    scope = 'params_sofar'
+    flt_nodes = set(id(f[3]) for f in flt)
+    i_upd = [i for i, e in enumerate(evs) if e['kind'] == 'update' and e['target'] == scope and e['arg'] == '%s[0]' % ps[1]]
+    i_other = [i for i, e in enumerate(evs) if e['kind'] in ('update', 'add', 'discard', 'remove', 'clear', 'difference_update',
+                                                               'intersection_update') and e['target'] == scope and i not in i_upd]
+    i_use = [i for i, e in enumerate(evs) if e['kind'] == 'filter' and id(e['node']) in flt_nodes]
+    i_rec = [i for i, e in enumerate(evs) if e['kind'] == 'rec']
+    ok = bool(i_upd) and bool(i_use) and min(i_upd) < min(i_use) and not i_other
     rep.check(r_rec, key('params_sofar updated before use'), ok,
               'params_sofar gains %s[0] before the call arguments are filtered' % ps[1] if ok else
-              'params_sofar is not updated with %s[0] before filtering the call arguments' % ps[1], sinter, upd[0] if upd else fi.node)
-    init = [s for s in stmts_of(fi.node) if isinstance(s, ast.Assign) and norm(s.targets[0]) == 'params_sofar']
-    ok = len(init) == 1 and norm(init[0].value) in ('set([%s])' % ps[2], '{%s}' % ps[2], 'set((%s,))' % ps[2]) and \
-        has_cond(conds(fi, init[0]), lambda t: norm(t) == 'params_sofar is None', True)
+              'params_sofar is not updated with %s[0] (and nothing else) before filtering the call arguments' % ps[1], sinter,
+              evs[i_upd[0]]['node'] if i_upd else fi.node)
+    init = te.inits.get(scope)
+    rebound = [s_ for s_ in stmts_of(fi.node) if isinstance(s_, (ast.Assign, ast.AugAssign)) and
+               any(norm(t) == scope for t in (s_.targets if isinstance(s_, ast.Assign) else [s_.target]))
+               and not (init is not None and any(s_ is x for x in ast.walk(init[0])))]
+    ok = init is not None and norm(init[1]) in ('set([%s])' % ps[2], '{%s}' % ps[2], 'set((%s,))' % ps[2], 'set({%s})' % ps[2]) and not rebound
     rep.check(r_rec, key('params_sofar initial'), ok, 'params_sofar starts as {inner_name}' if ok else
               'params_sofar does not start as {%s}' % ps[2], sinter, init[0] if init else fi.node)
     # ---- index / level (R03.b)
@@ -618,11 +644,10 @@ def check_generated_level(rep, r_kw, r_decl, r_tail, r_index, r_rec):
                   sinter, main)
     # ---- recursion (R01.f)
     recs = [s for s in codegen.flatten_syms(parts) if s.kind == 'rec']
-    if len(recs) != 1:
+    if len(recs) != 1 or len(i_rec) != 1:
         raise AnalysisError('build_chain_str: expected exactly one recursive call in the template')
     rc = recs[0].call
-    argmap = dict(zip(ps, [norm(x) for x in rc.args]))
-    argmap.update((k.arg, norm(k.value)) for k in rc.keywords)
+    argmap = recs[0].argmap
     want = {ps[0]: '%s[1:]' % ps[0], ps[1]: '%s[1:]' % ps[1], ps[2]: ps[2], 'params_sofar': 'params_sofar', 'level': 'level + 1'}
     bad = dict((k, argmap.get(k)) for k, v in want.items() if argmap.get(k) != v)
     rep.check(r_rec, key('recursion'), not bad,
@@ -630,13 +655,12 @@ def check_generated_level(rep, r_kw, r_decl, r_tail, r_index, r_rec):
               'recursive call arguments deviate: %r' % bad, sinter, rc)
     # the accumulating scope set is shared with the deeper levels (same object): the arguments of *this* level must be
     # filtered before the recursion adds the provides of the levels below it
-    rec_st = stmt_of(sinter, rc)
-    ok = bool(use) and rec_st is not None and all(cfg.must_pass(cfg.nodes_of(u), cfg.entry, cfg.nodes_of(rec_st)) for u in use)
+    ok = bool(i_use) and max(i_use) < i_rec[0]
     rep.check(r_rec, key('filter before recursion'), ok,
               'the call arguments of a level are filtered by params_sofar before the recursive call extends that set' if ok else
               'the recursive call (which adds deeper levels\' provides to the shared params_sofar) runs before this level\'s arguments are '
               'filtered: a function is handed names that are only defined further inside (NameError in the generated code at request time)',
-              sinter, rec_st or main)
+              sinter, rc)
     # the rec text sits between def line and the return (checked through shape); and it is emitted inside the def
     return j
 
@@ -650,13 +674,21 @@ def check_request_core(rep, rule, rule_kw=None):
     core = repo.mod(CORE)
     fi = core.func('_create_request_inner')
     ps = fi.params()
-    te = TemplateEval(repo, fi)
-    cc = [c for c in walk_body(fi.node) if isinstance(c, ast.Call) and call_name(c) == 'compile_code']
-    if len(cc) != 1:
+    te = TemplateEval(repo, fi).run()
+    sinks = [k for k in te.sinks if k['name'] == 'compile_code']
+    if len(sinks) != 1:
         raise AnalysisError('_create_request_inner: expected one compile_code call')
-    cc = cc[0]
-    code = cc.args[0] if cc.args else kwarg(cc, 'code_str')
-    parts = te.ev(code, cc.lineno)
+    sink = sinks[0]
+    cc = sink['node']
+
+    def sink_arg(name, pos):
+        if name in sink['kw']:
+            return sink['kw'][name]
+        return sink['args'][pos] if len(sink['args']) > pos else None
+    code = sink_arg('code_str', 0)
+    if not isinstance(code, codegen.Tmpl):
+        raise AnalysisError('request-core template is not a string the evaluator can follow: %r' % (code,))
+    parts = code.parts
     if any(isinstance(p, Sym) and p.kind == 'expr' for p in parts):
         raise AnalysisError('request-core template has an opaque part: %r' % [p for p in parts if isinstance(p, Sym) and p.kind == 'expr'])
     r = codegen.render(parts)
@@ -668,8 +700,8 @@ def check_request_core(rep, rule, rule_kw=None):
         rep.fail(rule, fkey(fi, 'template parses'), 'the request-core template does not produce valid Python: %s' % e, core, cc)
         return
     fdefs = [s for s in tree.body if isinstance(s, ast.FunctionDef)]
-    name = kwarg(cc, 'name') or (cc.args[1] if len(cc.args) > 1 else None)
-    name = repo.try_fold(name, core) if name is not None else None
+    name = sink_arg('name', 1)
+    name = ''.join(name.parts) if isinstance(name, codegen.Tmpl) and all(isinstance(p, str) for p in name.parts) else None
     ok = len(fdefs) == 1 and len(tree.body) == 1 and fdefs[0].name == name
     rep.check(rule, fkey(fi, 'template def'), ok, 'template defines exactly the function compile_code returns (%s)' % name if ok else
               'template does not define exactly one function named %r' % name, core, cc)
@@ -757,14 +789,12 @@ def check_request_core(rep, rule, rule_kw=None):
     rep.check(rule_kw, fkey(fi, 'def parameters'), ok, 'process_request takes exactly %s' % ps[2] if ok else
               'process_request parameters are not %s' % ps[2], core, cc)
     # environment
-    env = kwarg(cc, 'env') or (cc.args[2] if len(cc.args) > 2 else None)
-    if isinstance(env, ast.Name):
-        vals = [s.value for s in stmts_of(fi.node) if isinstance(s, ast.Assign) and norm(s.targets[0]) == env.id]
-        env = vals[-1] if vals else None
-    ok = isinstance(env, ast.Dict)
+    env = sink_arg('env', 2)
+    ok = isinstance(env, codegen.SDict) and env.comp is None
     if ok:
-        m = dict((k.value, norm(v)) for k, v in zip(env.keys, env.values) if isinstance(k, ast.Constant))
-        ok = m.get('endpoint') == ps[0] and m.get('render') == ps[1] and m.get('BaseResponse') == 'BaseResponse'
+        m = dict((k, v.text if isinstance(v, codegen.Ex) else None) for k, v in env.items.items())
+        ok = m.get('endpoint') == ps[0] and m.get('render') == ps[1] and m.get('BaseResponse') == 'BaseResponse' and \
+            'BaseResponse' not in te.env
         if ok:
             k, mm, obj = repo.resolve(core, 'BaseResponse')
             ok = k == 'class' and obj.name == 'BaseResponse' and obj.mod.name.startswith('werkzeug')
